@@ -257,6 +257,11 @@ class ImageDepth:
         # prevent circular import
         from photutils.aperture import CircularAperture
 
+        # separate calls with the same seed give the same results: each
+        # call starts from the seeded state and from empty results
+        self.rng = np.random.default_rng(self.seed)
+        self.fluxes = []
+
         if mask is None or not np.any(mask):
             all_xycoords = self._make_all_coords_no_mask(data.shape)
         else:
